@@ -25,7 +25,7 @@ ASSUMPTIONS = [
     'named as a dependency depends on "everything", which the statement does not cover)',
     'invocation order between different methods is not asserted',
 ]
-REQUIRED = {'queued_assignment_ops': 30, 'unresolvable_on_subclass_cases': 10, 'inherited_methods_decorated_again': 30, 'ops': 2500, 'invocations': 2000, 'overrides': 200, 'method_on_method': 200, 'function_form_ops': 280, 'methods_without_dependencies': 60, 'plain_mixin_first': 30, 'objects_mutations': 200}
+REQUIRED = {'queued_assignment_ops': 30, 'unresolvable_on_subclass_cases': 7, 'inherited_methods_decorated_again': 30, 'ops': 2500, 'invocations': 2000, 'overrides': 200, 'method_on_method': 200, 'function_form_ops': 280, 'methods_without_dependencies': 60, 'plain_mixin_first': 30, 'objects_mutations': 200}
 
 _st = {}
 PNAMES = ['p0', 'p1', 'p2', 'p3']
